@@ -18,7 +18,7 @@ func harnessC04Ingress() {
 	switch verif_choose(3) {
 	case 0: // TCP stream / port forward ingress
 		_, c := c07Conn()
-		p := verif_nondet_bytes(1 + verif_choose(3))
+		p := verif_nondet_bytes(1 + verif_choose(c04Payload))
 		c16Log = nil
 		n, err := c.Write(p)
 		verif_reach("C04/tcp-ingress")
@@ -31,7 +31,7 @@ func harnessC04Ingress() {
 		a := c16Agent()
 		ik, _ := c07Keys()
 		a.icmpIngressByStream = map[uint64]*icmpIngressAssociation{9: {StreamID: 9, NextHop: c16Peer(0), SessionKey: ik}}
-		p := verif_nondet_bytes(1 + verif_choose(3))
+		p := verif_nondet_bytes(1 + verif_choose(c04Payload))
 		c16Log = nil
 		err := a.RelayICMPEcho(9, verif_nondet_u16(), verif_nondet_u16(), p)
 		verif_reach("C04/icmp-ingress")
@@ -55,7 +55,7 @@ func harnessC04Ingress() {
 		ing := &udpIngressAssociation{BaseStreamID: 3, destAssocs: map[string]*udpDestAssociation{exitID.String(): dest}}
 		a.udpIngressByBase = map[uint64]*udpIngressAssociation{3: ing}
 		a.udpIngressByLocalStream = map[uint64]*udpDestLookup{11: {Ingress: ing, Dest: dest}}
-		p := verif_nondet_bytes(1 + verif_choose(3))
+		p := verif_nondet_bytes(1 + verif_choose(c04Payload))
 		c16Log = nil
 		err := a.RelayUDPDatagram(3, nil, 53, protocol.AddrTypeIPv4, []byte{10, 1, 2, 3}, p)
 		verif_reach("C04/udp-ingress")
